@@ -215,8 +215,8 @@ AbsSubVerdict(a, b, st) ==
 \* ------------------------------------------------------------------ leaves (constructors)
 RestrictOK(y, src, other) == /\ y.vars = other.vars /\ y.arc = other.arc
                              /\ \A n \in NamesOf(other) : G(y, n) = G(src, n)
-LeafVerdict(P, i) ==
-  LET lf == P.leaves[i] s == lf.spec y == lf.res
+LeafVerdictOf(P, lf) ==
+  LET s == lf.spec y == lf.res
       vars == IF Has(s, "vars") THEN Dedup(s.vars) ELSE <<>>          \* repeated names are dropped before anything else
       d == IF Has(s, "d") /\ s.d # <<>> THEN s.d ELSE Ones(Len(vars))
       n == Len(vars)
@@ -244,6 +244,7 @@ LeafVerdict(P, i) ==
          IF ~(other.k \in {"D1", "D2"}) THEN "skip"
          ELSE IF Len(d) # Len(other.vars) THEN V(lf.o \in {"panic", "err"})
          ELSE V(lf.o = "ok" /\ y.vars = other.vars /\ y.arc = other.arc /\ y.d = d /\ y.re = s.re)
+LeafVerdict(P, i) == LeafVerdictOf(P, P.leaves[i])
 
 \* ------------------------------------------------------------------ container = contained (C18)
 \* "Arithmetic on the generic number container gives the same result as the same arithmetic on the contained types":
